@@ -271,6 +271,7 @@ class Interp(object):
         #                                    delitem, delattr, mutate (native container mutator), lock (acquire/release)
         self.cur_stmt = (None, 0)          # (FuncInfo, line within the function) of the statement being executed
         self.load_hook = None              # hook(obj, name) on every attribute load by interpreted code
+        self.item_read_hook = None         # hook(container, key) on d[k], k in d, d.get(k) by interpreted code
         self.steps = 0
         self.max_steps = 2000000
         self.info_stack = []
@@ -613,6 +614,8 @@ class Interp(object):
             t.__name__, ka.__name__, kb.__name__))
 
     def contains(self, container, needle):
+        if self.item_read_hook is not None and isinstance(container, dict):
+            self.item_read_hook(container, needle)
         if isinstance(container, SymMap):
             return map_contains(self, container, needle)
         if isinstance(container, Sym):
@@ -717,6 +720,8 @@ class Interp(object):
         return None
 
     def getitem(self, obj, idx):
+        if self.item_read_hook is not None and isinstance(obj, dict):
+            self.item_read_hook(obj, idx)
         if isinstance(obj, SymMap):
             return map_getitem(self, obj, idx)
         if type(obj) is dict and id(obj) in self.symkey_dicts:
@@ -932,6 +937,13 @@ class Interp(object):
             self.iter_hook(('sorted', args[0], kwargs['key']), self.info_stack[-1] if self.info_stack else None)
         if fn is builtins.super and not args:
             raise Unsupported("zero-argument super() outside a frame")
+        if self.item_read_hook is not None and getattr(fn, '__name__', '') in ('get', '__getitem__', '__contains__'):
+            recv = getattr(fn, '__self__', None)
+            rest = args
+            if recv is None or isinstance(recv, (types.ModuleType, type)):
+                recv, rest = (args[0], args[1:]) if args else (None, args)
+            if isinstance(recv, dict) and rest:
+                self.item_read_hook(recv, rest[0])
         if self.store_hook is not None:
             nm = getattr(fn, '__name__', '')
             if nm in _MUTATORS or nm in _LOCK_OPS:
